@@ -3,7 +3,7 @@
 import json,os,re
 rows=[]
 for d in sorted(os.listdir('/verif/seeded')):
-    if not os.path.isdir(f'/verif/seeded/{d}'): continue
+    if not os.path.isdir(f'/verif/seeded/{d}') or d == 'refactors': continue
     m=json.load(open(f'/verif/seeded/{d}/meta.json'))
     rd=open(f'/verif/seeded/{d}/README.md').read()
     title=''
@@ -17,7 +17,7 @@ for d in sorted(os.listdir('/verif/seeded')):
     own=m['results'].get(m['breaks_property'],{})
     first=own.get('first')
     orc=first[0] if isinstance(first,list) and first else ''
-    det='yes' if own.get('exit')==1 else '**NO**'
+    det='yes' if own.get('exit')==1 else ('no (judged outside the statement, see meta.json)' if m.get('judgement') else '**NO**')
     rows.append((d,', '.join(f.replace('src/','') for f in files),title[:120].replace('|','/'),det,orc))
 table='| seed | file(s) | change | found by own quick check | oracle that fires |\n|------|---------|--------|---------------------------|-------------------|\n'+'\n'.join('| '+' | '.join(r)+' |' for r in rows)
 p='/verif/DESIGN.md'
